@@ -115,9 +115,9 @@ macro_rules! pre {
 /// one named postcondition clause (= one obligation)
 #[macro_export]
 macro_rules! ob {
-    ($c:expr, $name:literal) => {
+    ($c:expr, $name:expr) => {
         #[cfg(kani)]
-        assert!($c, $name);
+        kani::assert($c, $name);
         #[cfg(not(kani))]
         if !($c) { return Err($name.to_string()); }
     };
